@@ -1,4 +1,5 @@
 import Zrnt.Beacon.Impl.Altair
+import Zrnt.Beacon.Impl.Final
 /-! Helper lemmas for the altair part of C02: flag masks, stake loops, flag deltas, inactivity, ApplyDeltas. -/
 namespace Zrnt.Proofs.Lemmas
 open Zrnt.Beacon Zrnt.Beacon.Spec
@@ -272,5 +273,27 @@ theorem targetStakes_altair (cfg : Config) (vals : List Validator) (prevPart cur
     d.eligibleIndices = eligible_indices_of vals prev := by
   simp only [Impl.computeEpochAttesterDataAltair, target_balances_altair_pure, TIMELY_TARGET_FLAG_INDEX, clamp_stake_eq]
   exact ⟨trivial, rfl⟩
+
+theorem syncLoop_eq (cfg : Config) (vals : List Validator) (active : List Nat) (seed : Bytes) (shuffled : Nat → Nat)
+    (fuel i : Nat) (h : Bytes) (acc : List Nat)
+    (hinv : i % 32 ≠ 0 → h = Spec.hash (seed ++ uintToBytes 8 (i / 32))) :
+    Impl.computeSyncCommitteeIndicesLoop cfg vals active seed shuffled fuel i h acc =
+      sync_committee_indices_loop cfg vals active seed shuffled fuel i acc := by
+  induction fuel generalizing i h acc with
+  | zero => rfl
+  | succ fuel ih =>
+    unfold Impl.computeSyncCommitteeIndicesLoop sync_committee_indices_loop
+    split
+    · rfl
+    · have hh : (if (i % 32 == 0) = true then Spec.hash (seed ++ uintToBytes 8 (i / 32)) else h) =
+          Spec.hash (seed ++ uintToBytes 8 (i / 32)) := by
+        by_cases h0 : i % 32 = 0
+        · simp [h0]
+        · simp [h0, hinv h0]
+      simp only [hh]
+      apply ih
+      intro hne
+      have : (i + 1) / 32 = i / 32 := by omega
+      rw [this]
 
 end Zrnt.Proofs.Lemmas
